@@ -28,6 +28,7 @@ var replayFamilies = map[string]replayFamily{
 	"value":  {".", "value_test.go", "TestStickvcReplayValue"},
 	"attr":   {".", "attr_test.go", "TestStickvcReplayAttr"},
 	"exec":   {"twig", "exec_test.go", "TestStickvcReplayExec"},
+	"leak":   {".", "leak_test.go", "TestStickvcReplayLeak"},
 }
 
 type ReplayFile struct {
@@ -104,7 +105,7 @@ func writeReplay(e *Engine, pc *PropConfig, o *Obligation, header *Universe, dir
 		rf.Candidates = cands
 		cb, _ := json.Marshal(cands)
 		rf.Env = map[string]string{"STICKVC_CANDIDATES": string(cb), "STICKVC_SKIP": knownSkip(pc.ID)}
-		if pc.Replay == "exec" {
+		if pc.Replay == "exec" || pc.Replay == "leak" {
 			wb, _ := json.Marshal(pc.Witnesses)
 			rf.Env["STICKVC_INPUTS"] = string(wb)
 		}
